@@ -205,10 +205,13 @@ impl ReadZone {
             // records would need to be synthesized prior to signing) and
             // option 3, as stated, may still result in a large response.
             let guard = rrsets.iter();
+            //
+            // Only RRsets that exist in this version of the zone qualify:
+            // a type that was removed (or not yet added) in this version
+            // still has an entry in the map.
             guard
                 .iter()
-                .next()
-                .and_then(|(_rtype, rrset)| rrset.get(self.version))
+                .find_map(|(_rtype, rrset)| rrset.get(self.version))
                 .map(|rrset| NodeAnswer::data(rrset.clone()))
                 .unwrap_or_else(NodeAnswer::no_data)
         } else {
